@@ -39,6 +39,8 @@ def ref_cases(ctx, I, spec, names, builder, text, rcases, rmetas):
             c = H.extract_ctx(act)
             if c is None:
                 continue
+            if marker.startswith("from:"):
+                c = dict(c, act_inode=None)     # prerefs are resolved before the act has an inode
             ctx.case({"reference": written, "relation": rel, "framer": c["names"]["framer"], "share": dest},
                      nontrivial=rel is not None or not written.startswith("."), kind="reference")
             rcases.append((ref_expr(I, names, c, written, rel, finodes), "(Ok %s)" % c_parts(I, dest.split("."))))
@@ -283,6 +285,8 @@ def rename_witness(ctx, m):
             c = H.extract_ctx(act)
             if c is None or (c["names"]["framer"] != m["framer"] and ent is None):
                 continue
+            if marker.startswith("from:"):
+                c = dict(c, act_inode=None)
             runs.append((ent, (names[ent], new) if ent else None, dest))
             exprs.append("match norm %s with Ok l => l | _ => [999] end" % ref_expr(
                 I, n2, c, written, rel, H.spec_framer_inodes(I, spec, n2)))
